@@ -441,8 +441,14 @@ func parseBitmapDataMetrics(imageData []byte, start, end tables.Offset32, imageF
 	}
 	imageData = imageData[start:end]
 	switch imageFormat {
-	case 1, 6, 7, 8, 9:
+	case 1, 6, 8, 9:
 		return bitmapImage{}, fmt.Errorf("valid but currently not implemented bitmap image format: %d", imageFormat)
+	case 7: // big metrics, bit-aligned data: the 5 horizontal metrics come first, as in format 2
+		data, _, err := tables.ParseBitmapData2(imageData)
+		if err != nil || len(data.Image) < 3 {
+			return bitmapImage{}, errors.New("invalid bitmap data format 7 (EOF)")
+		}
+		return bitmapImage{metrics: data.SmallGlyphMetrics, image: data.Image[3:]}, nil
 	case 2:
 		data, _, err := tables.ParseBitmapData2(imageData)
 		return bitmapImage{metrics: data.SmallGlyphMetrics, image: data.Image}, err
